@@ -191,6 +191,11 @@ var notStreaming = map[string]string{
 	"portfolio list":        "same handler as attachments list (driven there)",
 }
 
+// notMultiStreaming: leaves taking a list of inputs that, by the source, accept no "-" among them.
+var notMultiStreaming = map[string]string{
+	"certificates import": "certificate files only",
+}
+
 // jform is one JSON-printing invocation.
 type jform struct {
 	name  string
